@@ -254,12 +254,14 @@ def sameVal (a b : Option Term) : Option Bool :=
   | some x, some y => some (x == y)
   | _, _ => none
 
-/-- `ConditionalAndExpression`: `all(EBV(x) …)` left to right; an error stops it -/
+/-- `ConditionalAndExpression`: false if any operand is false, else the error if any, else true -/
 def and3 (a b : Option Bool) : Option Bool :=
-  match a with
-  | some false => some false
-  | none => none
-  | some true => b
+  match a, b with
+  | some false, _ => some false
+  | _, some false => some false
+  | none, _ => none
+  | _, none => none
+  | some true, some true => some true
 
 /-- `ConditionalOrExpression`: true if any operand is true, else the error if any, else false -/
 def or3 (a b : Option Bool) : Option Bool :=
